@@ -72,9 +72,13 @@ class C12(Prop):
             return p
         fn_ops = []
         if family == "functions":
+            shared = pw_spec(rng, PW_LENGTHS)  # the same password under both digests, in both orders
             for _ in range(rng.randint(1, 4)):
                 alg = rng.choice([1, 2])
-                if rng.random() < 0.5:
+                if rng.random() < 0.35:
+                    fn_ops.append({"fn": "master", "alg": alg, "pw": shared})
+                    fn_ops.append({"fn": "master", "alg": 3 - alg, "pw": shared})
+                elif rng.random() < 0.5:
                     fn_ops.append({"fn": "master", "alg": alg, "pw": pw_spec(rng, FN_LENGTHS)})
                 else:
                     n = rng.choice([0, 0, 1, 5, 12, 17, 32, 33, 64])
